@@ -201,3 +201,17 @@ Example C13_ex_limitation : conv_from_prim true 64 false 64 1 true (2 ^ 64 - 1) 
                             conv_from_prim true 16 false 8 1 false 256 = Panic /\
                             conv_from_prim true 64 true 8 2 true 0 = Panic.
 Proof. repeat split; vm_compute; reflexivity. Qed.
+(* ---- tie to the source: the loop of from_uint! (`impl From<$uint> for $BUint<N>`, /repo/src/buint/convert.rs; $uint = u8 ..
+   u128, usize: every instantiation is checked to be an unsigned primitive) REGENERATED on every run (Generated/Loops.v,
+   tools/rs2v_loops.py; pb = $uint::BITS) computes exactly the model's U_from_uint, for both values of the model's debug flag
+   and a budget of at least pb iterations: `int >> (i << BIT_SHIFT)` never shifts by pb or more; the one possible panic (a
+   non-zero digit stored beyond index N - 1) is the model's Panic. ---- *)
+From Bnum.Model Require Import Imp.
+From Bnum.Generated Require Import Loops.
+From Bnum.Proofs Require Import LoopsTieC13.
+Theorem C13_loops_rs_match_model dbg w lg : 0 <= lg -> w = 2 ^ lg ->
+  forall n pb int fuel, 0 < pb -> (Z.to_nat pb <= fuel)%nat ->
+  Loops.from_uint w (Z.of_nat n) fuel pb int =
+  match Convert.U_from_uint dbg pb w n int with Ret r => Done r | Panic => Panicked end.
+Proof. exact (loops_C13_match_model dbg w lg). Qed.
+Print Assumptions C13_loops_rs_match_model.
